@@ -13,7 +13,10 @@ PID = "C18"
 INNERS = {
     "Inner": [("a", ("sc", "Int64")), ("b", ("arr", "Float64", (None,)))],
     "InnerS": [("p", ("sc", "Int32")), ("q", ("arr", "Float64", (2,)))],
+    # two dynamically sized fields: objects of equal total size can split it differently between x and y
+    "Inner2": [("k", ("sc", "Int64")), ("x", ("arr", "Int32", (None,))), ("y", ("arr", "Int32", (None,)))],
 }
+SPLITS = {"outer": (2, 3), "same": (3, 2), "other": (4, 1)}  # equal total sizes (Int32 items, slot rounding), different splits
 OUTERS = {
     "O1": [("x", ("sc", "Int64"))],
     "O2": [("x", ("sc", "Float64")), ("s", ("str",))],
@@ -25,6 +28,7 @@ OUTERS = {
     "O8": [("r", ("ref", "Inner")), ("k", ("sc", "Int64"))],
     "O9": [("inner", ("hyb", "Inner")), ("r", ("ref", "InnerS")), ("s", ("sc", "Float64"))],
     "O10": [("x", ("sc", "UInt8")), ("v", ("arr", "Float64", (None,))), ("s", ("str",))],
+    "O11": [("piece", ("hyb", "Inner2")), ("s", ("sc", "Int64"))],
 }
 RENAMES = ["none", "first", "all"]
 
@@ -90,7 +94,13 @@ def field_specs(cname):
     return dict(OUTERS.get(cname) or INNERS[cname])
 
 
+def inner2_value(n, split):
+    return dict(k=n, x=[n + i for i in range(split[0])], y=[100 + n + i for i in range(split[1])])
+
+
 def default_value(spec, n):
+    if spec == ("hyb", "Inner2"):
+        return inner2_value(n, SPLITS["outer"])
     if spec[0] == "sc":
         return float(n) + 0.5 if spec[1].startswith("Float") else (n % 100) + 1
     if spec[0] == "str":
@@ -120,6 +130,8 @@ class World:
         for nm in INNERS:
             for where, buf in (("same", self.B), ("other", self.F)):
                 m = {fn: default_value(fs, 20 + len(self.helpers)) for fn, fs in INNERS[nm]}
+                if nm == "Inner2":
+                    m = inner2_value(20 + len(self.helpers), SPLITS[where])
                 h = self.Inner[nm](_buffer=buf, **pycopy.deepcopy(m))
                 self.helpers[(nm, where)] = self.add(nm, h, m)
         m = {fn: default_value(fs, 3 + i) for i, (fn, fs) in enumerate(OUTERS[oname])}
@@ -199,6 +211,9 @@ class World:
             o = self.objs[oid]
             fs = field_specs(o["cname"])[fn]
             val = default_value(fs, 60 + n)
+            if fs == ("hyb", "Inner2"):
+                cur = o["m"][fn]
+                val = inner2_value(60 + n, (len(cur["x"]), len(cur["y"])))
             setattr(o["h"], self.pyname(oid, fn), pycopy.deepcopy(val))
             o["m"][fn] = val
         elif kind == "nest-hyb":
